@@ -67,6 +67,25 @@ Theorem C19_status_clock_exact : forall (c : chan) (s : apu),
 Proof. exact status_clock_exact. Qed.
 Print Assumptions C19_status_clock_exact.
 
+(* The sweep clock in documented terms (with C19_status_clock_exact: channel 1's flag after a clock = flag before
+   && not (length expiry) && not (sweep clock && sweep_overflows)): a sweep clock switches channel 1 off exactly when
+   the unit is enabled, its timer expires, the period is not 0 and either f' = f +/- (f >> s) > 2047, or f' fits,
+   s <> 0 and the calculation repeated with f' exceeds 2047 - the overflow re-check in the same sweep clock.
+   Hypothesis: the shadow frequency is an 11-bit value (it is only ever loaded with one). *)
+Theorem C19_sweep_clock_overflow : forall w : sweep,
+  swShadow w < 2048 ->
+  sweep_overflows w =
+  swEnabled w && (sub8 (swTimer w) 1 =? 0) && negb (swPeriod w =? 0) &&
+  (let f1 := sweep_next (swShadow w) (swShift w) (swIncrease w) in
+   (2047 <? f1) || ((f1 <? 2048) && (0 <? swShift w) && (2047 <? sweep_next f1 (swShift w) (swIncrease w)))).
+Proof. exact sweep_overflows_spec. Qed.
+Print Assumptions C19_sweep_clock_overflow.
+
+Theorem C19_sweep_subtraction_never_overflows : forall w : sweep,
+  swShadow w < 2048 -> swIncrease w = false -> sweep_overflows w = false.
+Proof. exact sweep_no_overflow_when_subtracting. Qed.
+Print Assumptions C19_sweep_subtraction_never_overflows.
+
 (* Frame sequencer: over ANY history of register writes other than NR52 (power is not switched) and machine
    cycles, from any well-formed state, the phase and the sequencer index are closed forms in the number of
    elapsed clocks n = 4 * cycles; one sequencer step per 8192 clocks. *)
